@@ -228,6 +228,14 @@ async fn observe(s: &Session, dir: &str, ids: &[u64]) -> Value {
             }
             Err(e) => o["is"] = json!({"err":format!("{}",e)}),
         }
+        // the log as the store exposes it: (index, term) of every readable entry
+        let last = store.get_last_log_index().await.map(|l| l.index).unwrap_or(0);
+        match store.get_log_entries(0, last + 1).await {
+            Ok(es) => {
+                o["log"] = Value::Array(es.iter().map(|e| json!([e.index, e.term])).collect())
+            }
+            Err(e) => o["log"] = json!({"err":format!("{}",e)}),
+        }
         match store.get_membership_config().await {
             Ok(mc) => {
                 let mut m: Vec<u64> = mc.members.iter().cloned().collect();
